@@ -41,8 +41,8 @@ ASSUMPTIONS = [
     "report cells are doubles: the CLI slice compares them with the rational values at 1e-12 relative",
 ]
 SETTINGS: Dict[str, Dict[str, Any]] = {
-    "quick": {"cases": 2400, "cli_cases": 32, "budget_s": 60, "minimums": {"fractions": 15000, "nontrivial": 500, "canary_fractions": 1500, "monitored_calls": 100000, "cli_fractions": 150, "cli_tax_report_rows": 150}},
-    "thorough": {"cases": 100000, "cli_cases": 480, "budget_s": 360, "minimums": {"fractions": 600000, "nontrivial": 20000, "canary_fractions": 50000, "monitored_calls": 5000000, "cli_fractions": 2500, "cli_tax_report_rows": 2500}},
+    "quick": {"cases": 2400, "cli_cases": 32, "budget_s": 60, "minimums": {"corpus_runs": 100, "fractions": 15000, "nontrivial": 500, "canary_fractions": 1500, "monitored_calls": 100000, "cli_fractions": 150, "cli_tax_report_rows": 150}},
+    "thorough": {"cases": 100000, "cli_cases": 480, "budget_s": 360, "minimums": {"corpus_runs": 100, "fractions": 600000, "nontrivial": 20000, "canary_fractions": 50000, "monitored_calls": 5000000, "cli_fractions": 2500, "cli_tax_report_rows": 2500}},
 }
 
 PROFILES = [
@@ -123,6 +123,9 @@ def _observe(ctx: Any, ip: Any, monitor: Any, hist: Dict[str, Any], sched: Dict[
 
 
 def run_shard(ctx: Any) -> None:
+    from rpv.checks import corpus_slice
+
+    corpus_slice.run(ctx, PROPERTY_ID)  # the repository's own example inputs, every method and the config's schedule
     from rpv.monitors.inproc import FloatMonitor
 
     ip = get_ip(ctx)
@@ -167,6 +170,11 @@ def run_shard(ctx: Any) -> None:
 
 
 def replay(ctx: Any, case: Dict[str, Any]) -> None:
+    if case.get("corpus"):
+        from rpv.checks import corpus_slice
+
+        corpus_slice.replay(ctx, PROPERTY_ID, case)
+        return
     from rpv.monitors.inproc import FloatMonitor
     import sys
 
